@@ -124,7 +124,7 @@ theorem rollbackSavepoint_eq {s : State} {t : TmpStore} (hsp : s.sp = some t) (p
 theorem rollbackSavepoint_facts {s : State} {t : TmpStore} (hS : Str [] s) (hsp : s.sp = some t)
     (hregOid : ∀ i ∈ s.registered, (s.objs i).oid ≠ none)
     (hchanged : ∀ i, (s.objs i).status = .changed → i ∈ s.registered)
-    (hadded : ∀ k i, s.added.get k = some i → i ∈ s.registered) (p idx cr) :
+    (hadded : ∀ k i, s.added.get k = some i → i ∈ s.registered) (hcrn : s.creating = []) (p idx cr) :
     RollbackFacts s t p idx cr (rollbackSavepoint s p idx cr) := by
   rw [rollbackSavepoint_eq hsp]
   let K : Nat → Prop := fun k => s.added.get k = none ∧ ¬ (t.creating.has k = true ∧ cr.has k = false)
@@ -168,7 +168,7 @@ theorem rollbackSavepoint_facts {s : State} {t : TmpStore} (hS : Str [] s) (hsp 
     · intro ha
       rw [shAR.noneKept i (e1 ha)]; exact e1 ha
     · intro ha
-      rcases e2 ha with h1 | h1
+      rcases e2 ha (by rw [hcrn]; rfl) with h1 | h1
       · exact Or.inl (shAR.ghostKept i h1)
       · right; rw [shAR.noneKept i h1]; exact h1
   refine ⟨⟨cR.1, sh⟩, ?_, ?_, ?_, ?_, ?_, ?_, ?_, ?_, ?_, ?_, ?_⟩
@@ -255,7 +255,7 @@ theorem rollbackReal_inv12 {s : State} (h : Inv12 s) {n p : Nat} {idx : Map Nat}
   obtain ⟨t, hsp, hj, we, w⟩ := h.real_entry hn
   have hS' : Str [] { s with sps := invalidateAfter n s.sps } := h.str.congr rfl rfl rfl rfl
   have F := rollbackSavepoint_facts (s := { s with sps := invalidateAfter n s.sps }) hS' hsp
-    h.regOid h.changedReg h.addedReg p idx cr
+    h.regOid h.changedReg h.addedReg h.creatingNil p idx cr
   generalize rollbackSavepoint { s with sps := invalidateAfter n s.sps } p idx cr = R at *
   have sh := F.clean.2
   have hSR := F.clean.1
